@@ -127,6 +127,19 @@ def expected_output(asl, value, oracle=None):
     Wait, Succeed, Parallel, Map over the input list; no paths, templates, Retry/Catch, scripted outcomes): positional
     join of the branch / item outputs, whatever the schedule.  Raises NotPlain otherwise."""
     oracle = oracle or {}
+    names = []
+
+    def collect(m):
+        for n, st in m["States"].items():
+            names.append(n)
+            for b in st.get("Branches", []):
+                collect(b)
+            for k in ("ItemProcessor", "Iterator"):
+                if isinstance(st.get(k), dict):
+                    collect(st[k])
+    collect(asl)
+    if len(names) != len(set(names)):
+        raise NotPlain("a state name used twice")
 
     def run(m, v):
         if set(m) - {"StartAt", "States", "Comment"}:
